@@ -648,6 +648,11 @@ class Inliner:
             h, recv = self._resolve(mname, cls_name, st.value)
             if h is not None and not h.is_gen:
                 return self._expand(h, st.value, recv, 'assign', targets=st.targets)
+        # `x = yield from gen_helper(..)`: the helper's yields stay in place, its return value is bound to x
+        if isinstance(st, ast.Assign) and isinstance(st.value, ast.YieldFrom) and isinstance(st.value.value, ast.Call):
+            h, recv = self._resolve(mname, cls_name, st.value.value)
+            if h is not None and h.is_gen and h.tail_ok:
+                return self._expand(h, st.value.value, recv, 'assign', targets=st.targets)
         # `for t in gen_helper(..): BODY` with a one-yield generator helper: the helper's loop with BODY in place of the yield
         if isinstance(st, ast.For) and not st.orelse and isinstance(st.iter, ast.Call):
             h, recv = self._resolve(mname, cls_name, st.iter)
@@ -753,6 +758,7 @@ class Inliner:
         cands = self.discover()
         if not cands:
             return False
+        self._unalias_helper_values()
         any_change = False
         for _round in range(3):
             changed = False
@@ -777,6 +783,52 @@ class Inliner:
             for m in self.modules.values():
                 ast.fix_missing_locations(m.tree)
         return any_change
+
+    def _unalias_helper_values(self):
+        """`h = self._helper` (bound once, only ever called) followed by `h(..)`: the calls are rewritten to `self._helper(..)`."""
+        def do_func(fn, mname, cls_name):
+            stores = {}
+            for n in ast.walk(fn):
+                if isinstance(n, ast.Name) and isinstance(n.ctx, (ast.Store, ast.Del)):
+                    stores[n.id] = stores.get(n.id, 0) + 1
+                elif isinstance(n, (ast.Global, ast.Nonlocal)):
+                    for nm in n.names:
+                        stores[nm] = stores.get(nm, 0) + 2
+                elif isinstance(n, ast.arg):
+                    stores[n.arg] = stores.get(n.arg, 0) + 2
+            args = {a.arg for a in fn.args.posonlyargs + fn.args.args + fn.args.kwonlyargs}
+            for st in list(fn.body):
+                if not (isinstance(st, ast.Assign) and len(st.targets) == 1 and isinstance(st.targets[0], ast.Name)):
+                    continue
+                name = st.targets[0].id
+                if stores.get(name) != 1 or name in args or not isinstance(st.value, (ast.Name, ast.Attribute)):
+                    continue
+                fake = ast.Call(func=st.value, args=[], keywords=[])
+                h, _recv = self._resolve(mname, cls_name, fake)
+                if h is None:
+                    continue
+                uses = [n for n in ast.walk(fn) if isinstance(n, ast.Name) and n.id == name and isinstance(n.ctx, ast.Load)]
+                calls = {id(c.func) for c in ast.walk(fn) if isinstance(c, ast.Call) and isinstance(c.func, ast.Name) and c.func.id == name}
+                if not uses or any(id(u) not in calls for u in uses):
+                    continue
+                # the alias must be bound before every use: it is a top-level statement of the function and the uses follow it textually
+                if any((u.lineno, u.col_offset) < (st.lineno, st.col_offset) for u in uses):
+                    continue
+                for c in ast.walk(fn):
+                    if isinstance(c, ast.Call) and isinstance(c.func, ast.Name) and c.func.id == name:
+                        c.func = ast.copy_location(copy.deepcopy(st.value), c.func)
+                fn.body.remove(st)
+                if not fn.body:
+                    fn.body.append(ast.copy_location(ast.Pass(), st))
+                self.log.append(f'{mname}:{fn.name}: alias `{name} = {ast.unparse(st.value)}` of a new helper resolved')
+        for mname, m in self.modules.items():
+            for st in m.tree.body:
+                if isinstance(st, ast.FunctionDef):
+                    do_func(st, mname, None)
+                elif isinstance(st, ast.ClassDef):
+                    for s2 in st.body:
+                        if isinstance(s2, ast.FunctionDef):
+                            do_func(s2, mname, st.name)
 
     def _drop_fully_inlined(self):
         for (mname, cname, name), h in self.helpers.items():
